@@ -221,4 +221,10 @@ MUTANTS = [
  dict(id="C20", name="int_ports_driven_with_float", edits=[(MM, "    char type = 'f';\n    if(strstr(port.name, \":i\"))\n        type = 'i';\n    std::function<void(int16_t, MidiMapperStorage::write_cb cb)> tmp =", "    char type = 'f';\n    std::function<void(int16_t, MidiMapperStorage::write_cb cb)> tmp =")]),
  dict(id="C20", name="storage_matches_first_mapping_only_by_index", edits=[(MM, "        if(std::get<0>(mapping[i]) == ID)\n        {\n            bool coarse = std::get<1>(mapping[i]);\n            int  ind    = std::get<2>(mapping[i]);", "        if(std::get<0>(mapping[i]) == ID)\n        {\n            bool coarse = std::get<1>(mapping[i]);\n            int  ind    = i < values.size() ? i : std::get<2>(mapping[i]);")]),
  dict(id="C20", name="watch_not_consumed", edits=[(MM, "        watchSize--;\n        pending.insert(ID);", "        pending.insert(ID);")]),
+
+ dict(id="C20", name="controller_id_ignores_channel", edits=[(MM, "    int ID = (isNrpn<<18) + (((chan-1)&0x0f)<<14) + par;", "    int ID = (isNrpn<<18) + par;")]),
+ dict(id="C20", name="controller_id_ignores_nrpn_flag", edits=[(MM, "    int ID = (isNrpn<<18) + (((chan-1)&0x0f)<<14) + par;", "    int ID = (((chan-1)&0x0f)<<14) + par;")]),
+ dict(id="C20", name="coarse_update_drops_fine_bit", edits=[(MM, "                values[ind] = (val<<7)|(values[ind]&0x7f);\n            else\n                values[ind] = val|(values[ind]&0x3f80);\n            callbacks", "                values[ind] = (val<<7)|(values[ind]&0x3f);\n            else\n                values[ind] = val|(values[ind]&0x3f80);\n            callbacks")]),
+ dict(id="C20", name="fine_update_clears_coarse_low_bit", edits=[(MM, "                values[ind] = val|(values[ind]&0x3f80);\n            callbacks", "                values[ind] = val|(values[ind]&0x3f00);\n            callbacks")]),
+ dict(id="C20", name="clone_values_forgets_fine_part", edits=[(MM, "                if(coarse_dest)\n                    values[ind_dest] = (val<<7)|(values[ind_dest]&0x7f);\n                else\n                    values[ind_dest] = val|(values[ind_dest]&0x3f80);\n            }\n        }\n    }\n}", "                if(coarse_dest)\n                    values[ind_dest] = (val<<7)|(values[ind_dest]&0x7f);\n            }\n        }\n    }\n}")]),
 ]
